@@ -116,6 +116,9 @@ var standingAssumptions = []string{
 	"A2: go/ssa (x/tools v0.29.0) lowering agrees with the Go compiler",
 	"A3: assumed contracts of dependencies (files under /verif/contracts/assumed) hold",
 	"A7: no pointer to a scalar field or into a plain-data struct value is passed to a function under contract (checked per verified function, reported as NOTE)",
+	"A8: closed world for calls without a contract (writes only what is type-reachable from the arguments and from closures / interface values created in the repository)",
+	"A9: interface-level contracts are trusted, not verified against their implementations (listed under trusted_base when used)",
+	"A12: bytes.*, strings.*, fmt.Sprintf/Errorf, strconv.*, unicode.* write no memory visible to the verified code",
 	"termination is proved only where a decreases clause is given; stack depth and memory exhaustion are outside every claim",
 	"partial claim: only the lemmas named in MANIFEST level_note / DESIGN.md section 6 are proved, not the whole property",
 }
